@@ -14,6 +14,7 @@
 import Mathlib.Data.Rat.Floor
 import PsutilModel.Proofs.C15Examples
 import PsutilModel.Proofs.C15Term
+import PsutilModel.Proofs.C15Ext
 import PsutilModel.Model.C15Gen
 namespace Psutil.C15
 open Spec
@@ -447,6 +448,264 @@ theorem C15_wait_procs_negative (envOf : Nat → Env) (procs : List Nat) (τ : R
     waitProcs cfg envOf procs (some τ) hasCb order fuel w = .error .valueError := by
   simp [waitProcs, negative, hτ]
 
+/-! ## extension — "ended before the deadline is never a timeout", arguments refused, waiting
+      for oneself, what `alive` means, `psutil.Popen.wait`, EINTR at the deadline revisited -/
+
+/-- a process that has ended by the deadline — in particular one whose exit falls strictly between
+    the last poll made before the deadline and the deadline itself — is never reported as timed
+    out: for EVERY exit instant, timeout, start instant and status word, as long as the wait's
+    last waitpid call was not interrupted (finding C15-eintr-deadline) -/
+theorem C15_timeout_sound_ended_before_deadline (env : Env) (pid : Nat) (τ : Rat) (fuel : Nat) (now : Rat)
+    (nWait : Nat) (hend : endedBy env (now + τ))
+    (hne : env.eintr (lastCall env pid (some τ) fuel now nWait) = false) (sec : Rat) (p : Nat) :
+    (obsWait env pid (some τ) fuel now nWait).out ≠ .timeout sec p := by
+  intro h
+  have hs := C15_timeout_sound_partial env pid (some τ) fuel now nWait hne
+  unfold timeoutSound at hs
+  rw [h] at hs
+  simp only at hs
+  obtain ⟨h1, _, h3, h4⟩ := hs
+  cases h1
+  exact h4 (endedBy_mono hend h3)
+
+/-- PID 0 is refused by `wait_pid`: ValueError at once, nothing slept -/
+theorem C15_pid0_ValueError (env : Env) (timeout : Option Rat) (fuel : Nat) (now : Rat) (nWait : Nat) :
+    pidZeroRefused ⟨env, 0, timeout, now⟩ (obsWait env 0 timeout fuel now nWait) := by
+  intro _ _
+  simp [obsWait, waitPid_zero env 0 timeout fuel now nWait rfl]
+
+/-- … and so by `Process.wait` on a PID-0 object; nothing is stored, so every later call is refused
+    again (a negative timeout is still reported first) -/
+theorem C15_pid0_process_wait (env : Env) (timeout : Option Rat) (fuel : Nat) (now : Rat) (p : PObj)
+    (hp : p.pid = 0) (hc : p.exitcode = none) :
+    pidZeroRefused ⟨env, p.pid, timeout, now⟩ (obsProc env timeout fuel now p) ∧
+    (negative timeout = false → (procWait cfg env timeout fuel now p).obj = p) := by
+  constructor
+  · intro _ hn
+    simp [obsProc, procWait_fresh env timeout fuel now p hc hn,
+      waitPid_zero env p.pid timeout fuel now p.nWait hp]
+  · intro hn
+    rw [procWait_fresh env timeout fuel now p hc hn]
+    simp only [waitPid_zero env p.pid timeout fuel now p.nWait hp, Outcome.value?]
+    cases p; simp_all
+
+/-- the caller waiting for itself (not its own child, and it cannot outlive its own question): the
+    only thing `wait` can do is time out — never a result, never another exception -/
+theorem C15_wait_self (env : Env) (pid : Nat) (timeout : Option Rat) (fuel : Nat) (now : Rat) (nWait : Nat) :
+    selfWait ⟨env, pid, timeout, now⟩ (obsWait env pid timeout fuel now nWait) := by
+  intro hs hp
+  simp only at hs hp
+  rcases waitPid_self cfg_good env pid timeout fuel now nWait hs hp with h | ⟨τ, ht, h⟩
+  · cases timeout with
+    | none => exact h
+    | some τ => intro _; exact Or.inr h
+  · subst ht
+    intro _; exact Or.inl h
+
+/-- with a timeout τ and enough fuel it does: TimeoutExpired(τ, pid), at/after the deadline, less
+    than one poll late -/
+theorem C15_wait_self_times_out (env : Env) (pid : Nat) (τ : Rat) (fuel : Nat) (now : Rat) (nWait : Nat)
+    (hs : isSelf env) (hp : 0 < pid) (h0 : 0 ≤ τ) (hf : ⌈τ * 10000⌉₊ + 2 ≤ fuel) :
+    (obsWait env pid (some τ) fuel now nWait).out = .timeout τ pid ∧
+    now + τ ≤ (obsWait env pid (some τ) fuel now nWait).ret ∧
+    (obsWait env pid (some τ) fuel now nWait).ret < now + τ + Spec.cap := by
+  have hcb := (C15_terminates_with_timeout env pid τ fuel now nWait hf rfl).2
+  have hout : (obsWait env pid (some τ) fuel now nWait).out = .timeout τ pid := by
+    rcases waitPid_self cfg_good env pid (some τ) fuel now nWait hs hp with h | ⟨τ', ht, h⟩
+    · exact absurd h hcb
+    · cases ht; exact h
+  exact ⟨hout, (C15_timeout_fields env pid (some τ) fuel now nWait τ pid hout).2.2,
+    C15_returns_before_deadline_plus_poll env pid τ fuel now nWait h0⟩
+
+/-- without a timeout it polls for ever: whatever the fuel, the run is still polling -/
+theorem C15_wait_self_never_returns (env : Env) (pid : Nat) (fuel : Nat) (now : Rat) (nWait : Nat)
+    (hs : isSelf env) (hp : 0 < pid) : (obsWait env pid none fuel now nWait).out = .outOfFuel := by
+  rcases waitPid_self cfg_good env pid none fuel now nWait hs hp with h | ⟨τ, ht, _⟩
+  · exact h
+  · cases ht
+
+/-- `wait_procs` refuses its arguments exactly as promised, before anything else happens (no
+    clock reading, no wait, no callback): negative timeout → ValueError (first), callback neither
+    None nor callable → TypeError; otherwise the call is the loop modelled by `waitProcs` -/
+theorem C15_wait_procs_arguments (envOf : Nat → Env) (procs : List Nat) (timeout : Option Rat) (cb : Cb)
+    (order : Nat → List Nat → List Nat) (fuel : Nat) (w : WP) :
+    waitProcsFront cfg envOf procs timeout cb order fuel w =
+      match wpRefusal timeout (cb != .absent) (cb == .callable) with
+      | some .valueError => .error (.out .valueError)
+      | some .typeError => .error .typeError
+      | none =>
+        match waitProcs cfg envOf procs timeout (cb != .absent) order fuel w with
+        | .error o => .error (.out o)
+        | .ok r => .ok r := by
+  unfold waitProcsFront wpRefusal
+  cases hn : negative timeout <;> cases cb <;> simp [cfg_good.cbCheck] <;> rfl
+
+/-- a callback that is not callable: TypeError -/
+theorem C15_wait_procs_noncallable (envOf : Nat → Env) (procs : List Nat) (timeout : Option Rat)
+    (order : Nat → List Nat → List Nat) (fuel : Nat) (w : WP) (hn : negative timeout = false) :
+    waitProcsFront cfg envOf procs timeout .notCallable order fuel w = .error .typeError := by
+  simp [waitProcsFront, hn, cfg_good.cbCheck]
+
+/-- whenever the front end returns the two lists they are those of the loop — every
+    `C15_wait_procs_*` theorem above applies to them -/
+theorem C15_wait_procs_front_ok (envOf : Nat → Env) (procs : List Nat) (timeout : Option Rat) (cb : Cb)
+    (order : Nat → List Nat → List Nat) (fuel : Nat) (w : WP) (r : WP × List Nat)
+    (h : waitProcsFront cfg envOf procs timeout cb order fuel w = .ok r) :
+    cb ≠ .notCallable ∧ waitProcs cfg envOf procs timeout (cb != .absent) order fuel w = .ok r := by
+  unfold waitProcsFront at h
+  cases hn : negative timeout
+  · rw [hn] at h
+    simp only [Bool.false_eq_true, if_false] at h
+    by_cases hc : (cfg.cbCheck && cb == .notCallable) = true
+    · simp [hc] at h
+    · simp only [hc, Bool.false_eq_true, if_false] at h
+      refine ⟨?_, ?_⟩
+      · intro e; subst e; simp [cfg_good.cbCheck] at hc
+      · cases hw : waitProcs cfg envOf procs timeout (cb != .absent) order fuel w with
+        | error o => rw [hw] at h; cases h
+        | ok r' => rw [hw] at h; simpa using h
+  · simp [hn] at h
+
+section
+variable (envOf : Nat → Env) (procs : List Nat) (timeout : Option Rat) (hasCb : Bool)
+  (order : Nat → List Nat → List Nat) (fuel : Nat) (w w' : WP) (alive' : List Nat)
+  (hperm : ∀ k l, (order k l).Perm l) (hf : Fresh envOf w)
+  (h : waitProcs cfg envOf procs timeout hasCb order fuel w = .ok (w', alive'))
+include hperm hf h
+
+/-- "which ones are still alive": every process in the returned `alive` list was polled once more
+    in the last attempt — which sleeps nothing — and seen alive AT THE INSTANT `wait_procs` RETURNED
+    (for the processes none of whose waitpid calls was interrupted) -/
+theorem C15_wait_procs_alive_running (clean : Nat → Bool)
+    (hclean : ∀ pid, clean pid = true → ∀ n, (envOf pid).eintr n = false) :
+    aliveRunning ⟨envOf, procs, timeout, w.now, hasCb⟩ (obsProcs w' alive') clean := by
+  intro pid hp hc
+  exact waitProcs_alive cfg_good envOf hasCb fuel order hperm procs timeout w w' alive' hf h pid hp
+    (hclean pid hc)
+
+end
+
+/-! ### `psutil.Popen.wait` -/
+
+/-- what a caller observes of one `Popen.wait(timeout)` started at `now` on object `q` -/
+def obsPopen (env : Env) (timeout : Option Rat) (fuel : Nat) (now : Rat) (q : PopenObj) : Obs :=
+  ⟨(popenWait cfg env timeout fuel now q).out, (popenWait cfg env timeout fuel now q).now,
+   (popenWait cfg env timeout fuel now q).sleeps⟩
+
+/-- while `subprocess.Popen.returncode` is unset, `Popen.wait` observes exactly `Process.wait` on
+    the same object and leaves the same `_exitcode` behind: every single-call theorem above
+    (never early, right status, timeout sound, one poll late, intervals, timeout 0, negative
+    timeout, termination) holds for it word for word -/
+theorem C15_popen_wait_is_process_wait (env : Env) (timeout : Option Rat) (fuel : Nat) (now : Rat)
+    (q : PopenObj) (h : q.subRc = none) :
+    obsPopen env timeout fuel now q = obsProc env timeout fuel now q.proc ∧
+    (popenWait cfg env timeout fuel now q).obj.proc = (procWait cfg env timeout fuel now q.proc).obj := by
+  obtain ⟨h1, h2, h3, h4, _⟩ := popenWait_unset cfg_good env timeout fuel now q h
+  exact ⟨by simp [obsPopen, obsProc, h1, h2, h3], h4⟩
+
+/-- afterwards `returncode` is the exit status that was returned (unset after None or an
+    exception), and the two layers agree: the same status sits in `Process._exitcode` -/
+theorem C15_popen_wait_stores (env : Env) (timeout : Option Rat) (fuel : Nat) (now : Rat)
+    (q : PopenObj) (h : q.subRc = none) :
+    popenStoredOk (obsPopen env timeout fuel now q) (popenWait cfg env timeout fuel now q).obj.subRc ∧
+    ∀ cc, (obsPopen env timeout fuel now q).out = .code cc →
+      (popenWait cfg env timeout fuel now q).obj.proc.exitcode = some (some cc) := by
+  obtain ⟨h1, _, _, h4, h5⟩ := popenWait_unset cfg_good env timeout fuel now q h
+  constructor
+  · unfold popenStoredOk obsPopen
+    simp only [h1, h5]
+    cases (procWait cfg env timeout fuel now q.proc).out <;> simp [rcAfter]
+  · intro cc hc
+    simp only [obsPopen, h1] at hc
+    rw [h4]
+    exact procWait_code_stored env timeout fuel now q.proc cc hc
+
+/-- once `returncode` is set — by an earlier `wait()` or by subprocess's own poll()/communicate() —
+    every `wait()` (any environment, instant, acceptable timeout) gives it back at once: no sleep,
+    no waitpid, object untouched -/
+theorem C15_popen_wait_cached (env : Env) (timeout : Option Rat) (fuel : Nat) (now : Rat) (q : PopenObj)
+    (cc : Int) (h : q.subRc = some cc) (hv : negative timeout = false) :
+    popenCachedOk cc (obsPopen env timeout fuel now q) now
+      ((popenWait cfg env timeout fuel now q).obj.proc.nWait - q.proc.nWait) ∧
+    (popenWait cfg env timeout fuel now q).obj = q := by
+  have e := popenWait_set (c := cfg) env timeout fuel now q cc h cfg_good.popenRcFirst (by simp [hv])
+  simp [popenCachedOk, obsPopen, e]
+
+/-- FULL statement for a configuration `c`: a negative timeout is a ValueError whatever the state
+    of the object, and nothing changes -/
+def C15_popen_wait_negative_Full (c : Cfg) : Prop :=
+  ∀ (env : Env) (timeout : Option Rat) (fuel : Nat) (now : Rat) (q : PopenObj), negative timeout = true →
+    (popenWait c env timeout fuel now q).out = .valueError ∧ (popenWait c env timeout fuel now q).now = now ∧
+    (popenWait c env timeout fuel now q).sleeps = [] ∧ (popenWait c env timeout fuel now q).obj = q
+
+/-- proved of the code as it is: while `returncode` is unset -/
+theorem C15_popen_wait_negative_partial (env : Env) (timeout : Option Rat) (fuel : Nat) (now : Rat)
+    (q : PopenObj) (h : q.subRc = none) (hn : negative timeout = true) :
+    negativeIsValueError ⟨env, q.proc.pid, timeout, now⟩ (obsPopen env timeout fuel now q) ∧
+    (popenWait cfg env timeout fuel now q).obj = q := by
+  obtain ⟨h1, h2, h3, h4, h5⟩ := popenWait_unset cfg_good env timeout fuel now q h
+  have e := procWait_negative cfg_good env timeout fuel now q.proc hn
+  constructor
+  · intro _
+    simp [obsPopen, h1, h2, h3, e]
+  · have : (popenWait cfg env timeout fuel now q).obj = ⟨q.proc, none⟩ := by
+      cases hq : (popenWait cfg env timeout fuel now q).obj with
+      | mk pr rc =>
+        rw [hq] at h4 h5
+        simp only at h4 h5
+        rw [h4, h5, e]; rfl
+    rw [this]; cases q; simp_all
+
+/-- the full statement holds for every good configuration whose Popen.wait validates first
+    (fixes/C15-popen-negative.diff) … -/
+theorem C15_popen_wait_negative_fixed (c : Cfg) (h : c.popenValidateFirst = true) :
+    C15_popen_wait_negative_Full c := by
+  intro env timeout fuel now q hn
+  simp [popenWait, h, hn]
+
+/-- … and is FALSE for every good configuration that looks at `returncode` first (the code as it
+    is): returncode 0 stored, `wait(-1)` returns 0 (replayed on the real code by the harness) -/
+theorem C15_popen_wait_negative_counterexample (c : Cfg) (hg : c.Good) (h : c.popenValidateFirst = false) :
+    ¬ C15_popen_wait_negative_Full c := by
+  intro hf
+  have h1 := (hf exOther (some (-1)) 5 0 ⟨⟨7, none, 0, none⟩, some 0⟩ (by simp [negative])).1
+  rw [popenWait_set exOther (some (-1)) 5 0 _ 0 rfl hg.popenRcFirst (by simp [h])] at h1
+  cases h1
+
+/-! ### EINTR at the deadline (finding C15-eintr-deadline) cannot be repaired inside `wait_pid` -/
+
+/-- ANY procedure that learns about the process through waitpid answers only — whatever it does
+    with them, however often it retries — gives the same answer for a dead child and for a child
+    that never ends when every call is interrupted. So it either reports the dead child as timed
+    out (`timeoutSound` fails), or gives the living one an exit status (`neverEarly` fails), or
+    does not come back / raises something else. psutil's test-suite (test_os_waitpid_eintr)
+    demands the first. Hence no code change is proposed for the finding. -/
+theorem C15_eintr_no_repair (impl : (Nat → Rat → Ans) → Outcome × Rat) :
+    ¬ (Acceptable deadAllEintr (impl deadAllEintr.answer) ∧
+       Acceptable liveAllEintr (impl liveAllEintr.answer)) := by
+  rw [answers_coincide]
+  rintro ⟨⟨t1, _, c1, v1⟩, ⟨_, n2, _, _⟩⟩
+  generalize impl liveAllEintr.answer = o at *
+  obtain ⟨out, ret⟩ := o
+  cases out with
+  | code cc =>
+    simp only [neverEarly, endedBy, liveAllEintr] at n2
+    simp at n2
+  | none =>
+    simp only [neverEarly, isChild, liveAllEintr] at n2
+    simp at n2
+  | timeout sec p =>
+    simp only [timeoutSound, endedBy, deadAllEintr] at t1
+    obtain ⟨a1, _, a3, a4⟩ := t1
+    cases a1
+    apply a4
+    right
+    show (0 : Rat) ≤ ret
+    linarith
+  | valueError => exact v1 rfl
+  | hang => exact (c1 rfl).1 rfl
+  | outOfFuel => exact (c1 rfl).2 rfl
+
 /-! ## the hypotheses are satisfiable, the conclusions are not empty -/
 
 /-- a run that sleeps twice and then returns an exit code (never_early / right_status / intervals
@@ -484,5 +743,34 @@ example : ∃ w', waitProcs cfg exEnv [1, 2, 1] (some 0) true (fun _ l => l) 5 e
     w'.cbLog = [1] ∧ w'.now = 1 := ex_procs cfg_good
 
 example : Fresh exEnv exW := exW_fresh
+
+/-- the exit falls STRICTLY between the last poll made before the deadline (0.1 ms) and the deadline
+    (0.25 ms): the hypotheses of `C15_timeout_sound_ended_before_deadline` are met, and the run
+    returns the exit status at 0.3 ms -/
+example : obsWait exLate 7 (some (1 / 4000)) 50 0 0 = ⟨.code 1, 3 / 10000, [1 / 10000, 1 / 5000]⟩ ∧
+    endedBy exLate (0 + 1 / 4000) ∧ ¬ endedBy exLate (1 / 10000) ∧
+    exLate.eintr (lastCall exLate 7 (some (1 / 4000)) 50 0 0) = false := by
+  refine ⟨by unfold obsWait; rw [ex_late cfg_good], ?_, ?_, rfl⟩
+  · right; norm_num [exLate]
+  · rintro (h | h)
+    · cases h
+    · norm_num [exLate] at h
+
+/-- the process `exOther` (not a child, never ends) is what the caller is to itself -/
+example : isSelf exOther := ⟨rfl, rfl⟩
+
+/-- a Popen object nobody has waited for meets the hypothesis of the `C15_popen_wait_*` theorems, and
+    one `wait(10 ms)` on the child of the first example stores the status in both layers -/
+example : exPopen.subRc = none ∧
+    (popenWait cfg exChild (some (1 / 100)) 50 0 exPopen).obj.subRc = some 1 ∧
+    (popenWait cfg exChild (some (1 / 100)) 50 0 exPopen).obj.proc.exitcode = some (some 1) := by
+  have h := popenWait_unset cfg_good exChild (some (1 / 100)) 50 0 exPopen rfl
+  have e : (procWait cfg exChild (some (1 / 100)) 50 0 exPopen.proc).out = .code 1 := by
+    rw [procWait_fresh exChild (some (1 / 100)) 50 0 exPopen.proc rfl (by simp [negative])]
+    simp only [exPopen]
+    rw [ex_wait cfg_good]
+  refine ⟨rfl, ?_, ?_⟩
+  · rw [h.2.2.2.2, e]; rfl
+  · rw [h.2.2.2.1]; exact procWait_code_stored exChild _ 50 0 exPopen.proc 1 e
 
 end Psutil.C15
